@@ -365,3 +365,17 @@ package dragonboat
 //@ requires p.batches != nil
 //@ modifies held(p.mu), entries(p.batches)
 //@ loop 1 step v.SystemCtx in p.batches ==> p.batches[v.SystemCtx].index == v.Index
+
+// a batch of readers is released (and leaves the table) only when its recorded index has been applied
+//@ func (p *pendingReadIndex) getTick [C06]
+//@ trusted reads the logical clock
+//@ func (p *pendingReadIndex) gc [C06]
+//@ trusted expiry of timed-out read requests
+//@ func (r *ready) set [C06]
+//@ trusted atomic flag
+//@ func (p *pendingReadIndex) applied [C06]
+//@ noframe
+//@ nobounds
+//@ requires p.batches != nil
+//@ modifies held(p.mu), entries(p.batches), p.lastGcTime
+//@ loop 1 step !(sys in p.batches) ==> rb.index > 0 && rb.index <= applied
